@@ -1,0 +1,93 @@
+//go:build verif
+
+// Contracts for package inode, checked by /verif/govc (comment-only file).
+package inode
+
+// Ownership (C14-P1/P2, C03-L1): every on-disk field of a cached inode, its
+// block array and its name cache are touched only under the inode's lock.
+//@ protected inode.Inode.Kind by held[this.Inum] @C14 @C03
+//@ protected inode.Inode.Nlink by held[this.Inum] @C14 @C03
+//@ protected inode.Inode.Gen by held[this.Inum] @C14 @C03
+//@ protected inode.Inode.Size by held[this.Inum] @C14 @C03
+//@ protected inode.Inode.ShrinkSize by held[this.Inum] @C14 @C03
+//@ protected inode.Inode.Atime by held[this.Inum] @C14 @C03
+//@ protected inode.Inode.Mtime by held[this.Inum] @C14 @C03
+//@ protected inode.Inode.blks by held[this.Inum] @C14 @C03
+//@ protected inode.Inode.blks[*] by held[this.Inum] @C14 @C03
+//@ protected inode.Inode.Dcache by held[this.Inum] @C14 @C03
+
+// Write-through typestate (C10-S1): a store to an on-disk field makes the
+// cached inode differ from the transaction until the next WriteInode.
+//@ onwrite inode.Inode.Kind: dirtyinum = store(dirtyinum, this.Inum, true)
+//@ onwrite inode.Inode.Nlink: dirtyinum = store(dirtyinum, this.Inum, true)
+//@ onwrite inode.Inode.Gen: dirtyinum = store(dirtyinum, this.Inum, true)
+//@ onwrite inode.Inode.Size: dirtyinum = store(dirtyinum, this.Inum, true)
+//@ onwrite inode.Inode.ShrinkSize: dirtyinum = store(dirtyinum, this.Inum, true)
+//@ onwrite inode.Inode.Atime: dirtyinum = store(dirtyinum, this.Inum, true)
+//@ onwrite inode.Inode.Mtime: dirtyinum = store(dirtyinum, this.Inum, true)
+//@ onwrite inode.Inode.blks[*]: dirtyinum = store(dirtyinum, this.Inum, true)
+
+// I1 (C04): every block pointer kept in an inode is null or in the data region.
+//@ specfunc blksValid(ip *Inode) = len(ip.blks) == 10 && (forall k uint64 :: k < 10 ==> ip.blks[k] == 0 || validBlk(ip.blks[k]))
+//@ specfunc inodeInv(ip *Inode) = ip != nil && ip.Inum < 32768 && blksValid(ip)
+//@ specfunc locked(ip *Inode) = ip != nil && held[ip.Inum]
+
+//@ spec pow
+//@   props C02 C19 C11
+//@   requires level <= 2
+//@   ensures [Fn4-pow] (level == 0 ==> result == 1) && (level == 1 ==> result == 512) && (level == 2 ==> result == 262144) @C02 @C19
+//@   loop 0 invariant (level == 1 && i == 1 && p == 512) || (level == 2 && ((i == 1 && p == 512) || (i == 2 && p == 262144)))
+//@   loop 0 decreases level - i
+
+//@ spec MaxFileSize
+//@   props C02 C19
+//@   ensures [Q3-maxfilesize] result == (8 + 512*512) * 4096 @C19 @C02
+
+//@ spec (*Inode).InitInode
+//@   props C08 C10 C14 C11
+//@   requires locked(ip) && ip.Inum == inum
+//@   modifies ip.Inum, ip.Kind, ip.Nlink, ip.Gen, ip.Atime, ip.Mtime, dirtyinum
+//@   ensures [H2-genbump] ip.Gen == old(ip.Gen) + 1 @C08
+//@   ensures ip.Kind == kind && ip.Nlink == 1 && ip.Inum == inum
+//@   ensures dirtyinum[inum] && (forall j uint64 :: j != inum ==> dirtyinum[j] == old(dirtyinum)[j])
+
+//@ spec MkRootInode
+//@   props C08 C15
+//@   inlinecalls inode.(*Inode).InitInode
+//@   allocates inode.Inode, []uint64
+//@   ensures [H4-rootgen] fresh(result) && result.Inum == 1 && result.Gen == 1 && result.Kind == 2 && result.Nlink == 1 @C08 @C15
+//@   ensures len(result.blks) == 10 && result.Size == 0 && result.ShrinkSize == 0 && (forall k uint64 :: k < 10 ==> result.blks[k] == 0)
+
+//@ spec (*Inode).MkFattr
+//@   props C02 C14 C03
+//@   requires [L4-underlock] locked(ip) @C14 @C03
+//@   ensures [Fn7-fattr] result.Ftype == ip.Kind && uint64(result.Size) == ip.Size && uint64(result.Used) == ip.Size && uint64(result.Fileid) == ip.Inum && result.Nlink == 1 && result.Mode == 511 @C02
+//@   ensures [Fn7-times] result.Atime.Seconds == ip.Atime.Seconds && result.Atime.Nseconds == ip.Atime.Nseconds && result.Mtime.Seconds == ip.Mtime.Seconds && result.Mtime.Nseconds == ip.Mtime.Nseconds @C02
+
+//@ spec (*Inode).DecLink
+//@   props C05 C04 C14
+//@   requires locked(ip) && inodeInv(ip) && atxnInv(atxn) && lastst == 0
+//@   modifies ip.Nlink, dirtyinum
+//@   ensures ip.Nlink == old(ip.Nlink) - 1 && (result <==> ip.Nlink == 0)
+//@   ensures !dirtyinum[ip.Inum] && (forall j uint64 :: j != ip.Inum ==> dirtyinum[j] == old(dirtyinum)[j])
+
+// S2 (C10): the on-disk inode codec. Encode lays the fields out little-endian
+// at fixed offsets of a fresh 128-byte buffer; Decode reads the same offsets.
+//@ spec (*Inode).Encode
+//@   props C10 C11 C14
+//@   requires locked(ip) && len(ip.blks) == 10
+//@   allocates []uint8, marshal.Enc, cell:uint64
+//@   ensures [S2-len] len(result) == 128 && fresh(result) @C10 @C11
+//@   ensures [S2-scalars] le32(result, 0) == uint32(ip.Kind) && le32(result, 4) == ip.Nlink && le64(result, 8) == ip.Gen && le64(result, 16) == ip.Size && le64(result, 24) == ip.ShrinkSize @C10
+//@   ensures [S2-times] le32(result, 32) == uint32(ip.Atime.Seconds) && le32(result, 36) == uint32(ip.Atime.Nseconds) && le32(result, 40) == uint32(ip.Mtime.Seconds) && le32(result, 44) == uint32(ip.Mtime.Nseconds) @C10
+//@   ensures [S2-blks] forall k uint64 :: k < 10 ==> le64(result, 48 + 8*k) == ip.blks[k] @C10
+
+//@ spec Decode
+//@   props C10 C11
+//@   requires buf != nil && len(buf.Data) >= 128
+//@   allocates inode.Inode, []uint64, cell:uint64
+//@   ensures [S2-decode] fresh(result) && result.Inum == inum && uint32(result.Kind) == le32(buf.Data, 0) && result.Nlink == le32(buf.Data, 4) && result.Gen == le64(buf.Data, 8) && result.Size == le64(buf.Data, 16) && result.ShrinkSize == le64(buf.Data, 24) @C10
+//@   ensures [S2-decode-times] uint32(result.Atime.Seconds) == le32(buf.Data, 32) && uint32(result.Atime.Nseconds) == le32(buf.Data, 36) && uint32(result.Mtime.Seconds) == le32(buf.Data, 40) && uint32(result.Mtime.Nseconds) == le32(buf.Data, 44) @C10
+//@   ensures [S2-decode-blks] len(result.blks) == 10 && (forall k uint64 :: k < 10 ==> result.blks[k] == le64(buf.Data, 48 + 8*k)) @C10 @C11
+//@   ensures result.Dcache == nil
+//@   assumes [I1-disk] forall k uint64 :: k < 10 ==> result.blks[k] == 0 || validBlk(result.blks[k])
